@@ -424,6 +424,7 @@ type Clause struct {
 	Expr  *SExpr
 	Src   string
 	Where string // file:line
+	Tagged bool  // the clause names the properties it serves explicitly ("name {C01,C02}: ...")
 }
 
 type LoopSpec struct {
@@ -524,6 +525,7 @@ func parseClause(kind, rest, where string, defProps []string) (*Clause, error) {
 		// make sure what precedes ':' isn't an expression like a[1:2]; heads never contain '[' or '('
 		c.Name = m[1]
 		if m[2] != "" {
+			c.Tagged = true
 			c.Props = nil
 			for _, p := range strings.FieldsFunc(m[2], func(r rune) bool { return r == ',' || r == ' ' }) {
 				c.Props = append(c.Props, p)
